@@ -2,7 +2,7 @@ SPECIFICATION Spec
 CONSTANTS
   KeySet = {"c0", "c20", "c10000000000000000", "c10000000000000020", "s0"}
   ValSet = {"1", "2"}
-  MaxOps = 5
+  MaxOps = 6
   MaxCopy = 64
 INVARIANTS Inv_LoadIsLastStore Inv_SliceIsLastStores Inv_Agrees Inv_Unwritten Inv_AppendOnly Inv_StoreLocal Inv_ReadsInvisible
 CHECK_DEADLOCK FALSE
